@@ -335,6 +335,7 @@ def check(ctx):
 
 
 VARIANTS = [
+    M('R7', PH, "            time.sleep(duration_s)\n            self._z = landing_height\n", "            time.sleep(duration_s)\n", 'z not updated by landing'),
     M('R8', 'cflib/crazyflie/commander.py', "            pk.data = struct.pack('<Bffff', TYPE_HOVER_LEGACY,\n                                  vx, vy, -yawrate, zdistance)", "            pk.data = struct.pack('<Bffff', TYPE_HOVER_LEGACY,\n                                  vx, vy, yawrate, zdistance)", 'legacy hover yaw sign'),
 
     M('R1', MC, "            self._thread.stop()\n            self._thread = None\n\n            self._cf.commander.send_stop_setpoint()", "            self._cf.commander.send_stop_setpoint()\n            self._thread.stop()\n            self._thread = None", 'thread stopped after stop set-point'),
